@@ -79,7 +79,8 @@ class C04(Prop):
     shard = 60
     rule = ("well-scaled systems (1-5 receptors x 1-8 sources, cond(KA)<=1e3, gamut extent in [1,100]); lb zero/non-zero, ub finite/inf; "
             "K none/scalar/vector/matrix; baseline zero/scalar/vector; per-receptor and per-sample weights; targets constructed inside / on a face / "
-            "on a vertex / outside / far outside / below the baseline; entry ReceptorEstimator.fit(B) or lsq_linear(return_pred=True); default solver "
+            "on a vertex / outside / far outside / below the baseline; weights up to 64 for targets outside; 40 % of the judged targets are one row (random position) "
+            "of a call with 2-6 targets (as many rows as receptors in half of these) fitted with batch_size 1/2/3/full/n/n+2; entry ReceptorEstimator.fit(B) or lsq_linear(return_pred=True); default solver "
             "settings (accuracy 2e-2 capture units, 1% of bound range) and CLARABEL tight settings via **opt_kwargs (2e-3, 1e-6 of range). "
             "non-trivial = at least one active bound with positive residual, or an under-determined system")
     assumptions = ["the conic/QP solver behind cvxpy is opaque: only its result is judged, by the weak-duality certificate checked in Coq",
@@ -102,14 +103,23 @@ class C04(Prop):
             kind, b, xtrue = got
             wk = rng.choice(["one", "receptor", "sample"])
             w = [1.0] * m if wk == "one" else [rng.randint(1, 12) / 4 for _ in range(m)]
-            if wk != "one" and rng.random() < 0.25:
-                w = [float(rng.randint(4, 16)) for _ in range(m)]        # importance weights of order ten: weighted residuals of several hundred for far targets
+            if wk != "one" and rng.random() < (0.6 if kind in ("far", "outside", "below") else 0.15):
+                w = [float(rng.choice([4, 8, 16, 32, 64])) for _ in range(m)]        # importance weights of order ten to sixty: weighted residuals of several hundred for far targets
             entry = rng.choice(["estimator.fit", "estimator.fit", "lsq_linear"])
             acc = rng.choice(["default", "default", "high"])
+            # the judged target is one row of a call with several targets (as many rows as receptors in half of these), fitted in batches
+            extra = []
+            if rng.random() < 0.4:
+                for _ in range(m - 1 if (m > 1 and rng.random() < 0.5) else rng.randint(1, 5)):
+                    g2 = gs.gen_target_regime(rng, sys, rng.choice(["inside", "face", "outside", "far", "below"]))
+                    if g2 is not None:
+                        extra.append({"b": np.asarray(g2[1]).tolist(), "w": ([rng.randint(1, 12) / 4 for _ in range(m)] if wk == "sample" else None)})
             cases.append({"sys": {k: (v.tolist() if isinstance(v, np.ndarray) else v) for k, v in sys.items()},
+                          "extra": extra, "row": (rng.randint(0, len(extra)) if extra else 0),
+                          "batch": (rng.choice([1, 2, 3, "full", len(extra) + 1, len(extra) + 3]) if extra else 1),
                           "b": b.tolist(), "w": w, "wkind": wk, "entry": entry, "acc": acc, "tkind": kind,
-                          "kind": "%s/K-%s/base-%s/ub-%s/%s/%s" % (kind, sys["Kkind"], sys["bkind"],
-                                                                  "fin" if np.isfinite(sys["ub"][0]) else "inf", wk, acc)})
+                          "kind": "%s/K-%s/base-%s/ub-%s/%s/%s%s" % (kind, sys["Kkind"], sys["bkind"],
+                                                                    "fin" if np.isfinite(sys["ub"][0]) else "inf", wk, acc, "/rows" if extra else "")})
         return cases
 
     @staticmethod
@@ -128,28 +138,38 @@ class C04(Prop):
         B = np.asarray(case["b"], dtype=float)[None]
         kw = dict(HI) if case["acc"] == "high" else {}
         w = np.asarray(case["w"], dtype=float)
+        extra = case.get("extra") or []; row = case.get("row", 0)
+        Wfull = w[None]
+        if extra:
+            rows_ = [np.asarray(e["b"], dtype=float)[None] for e in extra]; rows_.insert(row, B)
+            B = np.vstack(rows_)
+            if case["wkind"] == "sample":
+                ws_ = [np.asarray(e["w"], dtype=float)[None] for e in extra]; ws_.insert(row, w[None])
+                Wfull = np.vstack(ws_)
+            kw["batch_size"] = case["batch"]
         # warm-up: the same fit on a sibling system (other baseline) must leave no trace
         gs.warm(lambda: gs.make_estimator(gs.sibling(sys), w=w).fit(B + 0.75, **kw))
         core.drain_hooks()
         if case["entry"] == "lsq_linear":
             from dreye.api.optimize.lsq_linear import lsq_linear
-            W = w[None] if case["wkind"] == "sample" else w
+            W = Wfull if case["wkind"] == "sample" else w
             X, Bp = lsq_linear(sys["A"], B, lb=sys["lb"], ub=sys["ub"], W=W,
                                K=(None if sys["K"] is None else np.atleast_1d(sys["K"])), baseline=sys["baseline"],
                                return_pred=True, **kw)
         else:
             est = gs.make_estimator(sys, w=w)
             if case["wkind"] == "sample":
-                est.register_targets(B, W=w[None])
+                est.register_targets(B, W=Wfull)
                 X, Bp = est.fit(B, **kw)
             else:
                 X, Bp = est.fit(B, **kw)
         st = [r[1]["status"] for r in core.drain_hooks() if r[0] == "solve"]
-        return {"X": np.asarray(X, dtype=float)[0].tolist(), "Bpred": np.asarray(Bp, dtype=float)[0].tolist(), "status": st}
+        return {"X": np.asarray(X, dtype=float)[row].tolist(), "Bpred": np.asarray(Bp, dtype=float)[row].tolist(), "status": st}
 
     def tols(self, case, sys):
         hi = case["acc"] == "high"
-        tolc = 2e-3 if hi else 2e-2
+        # the accuracy is stated in capture units; the judged error is the WEIGHTED one, so importance weights above 1 scale it (FA-22)
+        tolc = (2e-3 if hi else 2e-2) * max(1.0, max(float(v) for v in case["w"]))
         rngs = [(u - l) if np.isfinite(u) else 10.0 for l, u in zip(sys["lb"], sys["ub"])]
         tolb = [(1e-6 if hi else 1e-2) * r for r in rngs]
         return tolc, tolb
